@@ -424,8 +424,11 @@ func runHistory(r *sink, rs runSpec, bucketPrefix string) error {
 		}
 		for i := 0; i < size; i++ {
 			t := g.makeTx()
-			if err := s.commit(&t); err != nil {
-				return fmt.Errorf("commit: %w", err)
+			if err := s.commit(&t); err == errNothingToCommit {
+				i--
+				continue
+			} else if err != nil {
+				return fmt.Errorf("commit: %w (tx %s)", err, historyDigest([]Tx{t}))
 			}
 			if !rs.det && !lagging && rng.Intn(10) == 0 {
 				if err := s.st.FlushIndexes(g.sc.Cleanup, rng.Intn(2) == 0); !maintErrOK(err) {
